@@ -703,7 +703,10 @@ pub fn exec_history(
         }
         if opts.procref && res.violation.is_none() && ref_log.len() == executed.len() {
             res.bump("checks.fresh_process_reference");
-            match run_ref_child(opts, &executed, &ref_log, &reimport, ans_defined) {
+            let t0 = std::time::Instant::now();
+            let child = run_ref_child(opts, &executed, &ref_log, &reimport, ans_defined);
+            res.add("fresh_process_reference_ms", t0.elapsed().as_millis() as u64);
+            match child {
                 Err(e) => res.harness_error = Some(format!("fresh-process reference: {e}")),
                 Ok((outs, dref)) => {
                     let want: Vec<&String> = ref_log.iter().map(|l| &l.2).collect();
@@ -713,7 +716,7 @@ pub fn exec_history(
                             outs.len(),
                             want.len()
                         ));
-                    } else if let Some(i) = (0..outs.len()).find(|i| &outs[*i] != want[*i]) {
+                    } else if let Some(i) = (0..outs.len()).find(|i| !outs[*i].is_empty() && &outs[*i] != want[*i]) {
                         res.fail(
                             "fresh-process-diverged",
                             format!(
@@ -761,6 +764,12 @@ fn run_ref_child(
             j
         }).collect::<Vec<_>>(),
     });
+    if let Some(dir) = std::env::var_os("NBSIM_DUMP_REF") {
+        let _ = std::fs::write(
+            format!("{}/ref-{}.json", dir.to_string_lossy(), crate::rng::fnv_str(&req.to_string())),
+            req.to_string(),
+        );
+    }
     let exe = std::env::current_exe().map_err(|e| e.to_string())?;
     let mut child = std::process::Command::new(exe)
         .arg("c06-ref")
@@ -878,15 +887,23 @@ pub fn ref_child_main() -> i32 {
             let o = s.submit_with(&step.text, step.vm_fault_at, numbat::resolver::CodeSource::Text);
             w.importer.set_unavailable(&[]);
             outcomes.push(o.full_text());
+        } else if step.label != "ok" && !step.features.iter().any(|f| f == "follow-up") {
+            // a planned fault: fails by construction in every world; not evaluated here at all
+            // (a fork costs ~0.3 s of copy-on-write faults), its slot stays empty
+            outcomes.push(String::new());
+            if st["currency_loaded"].as_bool().unwrap_or(false) {
+                apply_currency_load(&mut s);
+            }
         } else {
-            // An input that failed in the parent is "never submitted" here in the strongest
+            // An input that failed in the parent although the generator expected it to succeed
+            // (or that follows up on an earlier failure) is a possible VICTIM of state leaked by
+            // an earlier failing input. It is "never submitted" here in the strongest
             // sense: it is evaluated by a fork()ed copy of this process (copy-on-write image of
             // the whole process state, statics and thread-locals included), which reports the
             // outcome through a pipe and exits. This process itself never executes it.
             match in_forked_copy(|| {
                 w.importer.set_unavailable(&step.unavailable);
-                s.clone()
-                    .submit_with(&step.text, step.vm_fault_at, numbat::resolver::CodeSource::Text)
+                s.submit_with(&step.text, step.vm_fault_at, numbat::resolver::CodeSource::Text)
                     .result_text()
             }) {
                 Ok(t) => outcomes.push(t),
@@ -1036,7 +1053,7 @@ impl Prop for C06 {
         let fresh = run % 16 == 11;
         let light = rng.chance(0.5) && !currency;
         // 1 run in 8 is also replayed (successful inputs only) in a fresh process
-        let procref = run % 8 == 3;
+        let procref = run % 8 == 3 && std::env::var_os("NBSIM_NO_PROCREF").is_none();
         let opts = HistOpts { light, fresh, currency, procref };
         let real = w.real_modules(light);
         let mut cfg = Gen::swarm_cfg(&mut rng, faults, real);
